@@ -286,8 +286,8 @@ def judge_range(rec, prog, info):
 
 
 def judge_ids(rec, info):
-    """C14: ids handed out (NEXT calls and transactions) are pairwise distinct and are
-    uuid5(namespace, decimal counter) of distinct counters 0..n-1."""
+    """C14: ids handed out (NEXT calls and transactions) are pairwise distinct, and each is
+    uuid5(namespace, decimal counter) of one of the counter values the generator handed out."""
     ids = []
     for c in info["calls"].values():
         if c["ret"] and c["ret"].startswith("id:"):
@@ -296,11 +296,15 @@ def judge_ids(rec, info):
         ids.append(t[0])
     if len(set(ids)) != len(ids):
         return "duplicate id among %d issued: %s" % (len(ids), sorted(x for x in ids if ids.count(x) > 1)[:2])
-    # setup matches may have consumed counters too
-    want = {str(uuid.uuid5(NS_MAIN, str(k))) for k in range(0, len(ids) + 64)}
+    olds = [int(ev.split(":")[3]) for _, ev in info.get("steps", []) if ev.startswith("FA:gen:")]
+    if len(set(olds)) != len(olds):
+        return "the generator handed out counter %s twice" % sorted(x for x in olds if olds.count(x) > 1)[:1]
+    if olds and olds != [(olds[0] + i) % W for i in range(len(olds))]:
+        return "generator counters (in trace order) are not c0, c0+1, ...: %s" % olds[:8]
+    want = {str(uuid.uuid5(NS_MAIN, str(k))) for k in olds}
     bad = [x for x in ids if x not in want]
     if bad:
-        return "id %s is not uuid5(namespace, counter) for any small counter" % bad[0]
+        return "id %s is not uuid5(namespace, k) for any counter k the generator handed out in this run" % bad[0]
     return None
 
 
